@@ -1428,7 +1428,13 @@ func funToString(v interface{}) (string, error) {
 
 func funToInt(v interface{}) (*decimal.Big, error) {
 	n := convToNumber(v)
-	iv, _ := n.Int64()
+	iv, ok := n.Int64()
+	if !ok && n.IsFinite() {
+		// beyond int64: truncate the decimal itself toward zero
+		ctx := decimal.Context128
+		ctx.RoundingMode = decimal.ToZero
+		return ctx.RoundToInt(newDecimalBig().Copy(n)), nil
+	}
 	return newDecimalBig().SetMantScale(iv, 0), nil
 }
 
